@@ -84,6 +84,25 @@ def T(text, kind):
     return (text, kind)
 
 
+# Rendering style (set by `styled`): the plain style writes no trailing commas, no comments and bare conditions; the
+# other styles write the same tree the way the documentation and users also write it.  The token kinds / tree are unchanged.
+STYLE = {"trailing_comma": False, "comments": False, "paren_cond": False, "braceless_loop": False}
+
+
+class styled:
+    """context manager: render with the given style switches on"""
+    def __init__(self, **kw):
+        self.kw = kw
+
+    def __enter__(self):
+        self.old = dict(STYLE)
+        STYLE.update(self.kw)
+
+    def __exit__(self, *a):
+        STYLE.clear()
+        STYLE.update(self.old)
+
+
 def toks_expr(e, extra_parens=None):
     """token list of an expression with the minimal parentheses that keep its tree;
     `extra_parens(e)` may ask for redundant ones around any sub-expression"""
@@ -134,6 +153,8 @@ def toks_expr(e, extra_parens=None):
                 if i:
                     out.append(T(",", "op"))
                 out += go(a)
+            if STYLE["trailing_comma"] and e[1]:
+                out.append(T(",", "op"))
             return out + [T("]", "op")]
         if k == "rec":
             out = [T("@", "op"), T("{", "op")]
@@ -141,6 +162,8 @@ def toks_expr(e, extra_parens=None):
                 if i:
                     out.append(T(",", "op"))
                 out += go(kk) + [T("->", "op")] + go(vv)
+            if STYLE["trailing_comma"] and e[1]:
+                out.append(T(",", "op"))
             return out + [T("}", "op")]
         raise ValueError(k)
     return par(e, False)
@@ -181,11 +204,18 @@ def toks_stmt(st, xp=None):
         for i, (c, body) in enumerate(st[1]):
             if i:
                 out.append(T("অথবা", "word"))
-            out += [T("যদি", "word")] + E(c) + [T("{", "op"), NL] + toks_stmts(body, xp) + [T("}", "op")]
+            ct = E(c)
+            if STYLE["paren_cond"]:
+                ct = [T("(", "op")] + ct + [T(")", "op")]
+            out += [T("যদি", "word")] + ct + [T("{", "op"), NL] + toks_stmts(body, xp) + [T("}", "op")]
         if st[2] is not None:
             out += [T("অথবা", "word"), T("{", "op"), NL] + toks_stmts(st[2], xp) + [T("}", "op")]
         return out + [NL]
     if k == "loop":
+        if STYLE["braceless_loop"]:
+            # `লুপ … আবার;` without a block: accepted by the parser (loop start and loop end are statements of their own); the
+            # body then has no scope of its own — a different program, used for model-vs-implementation comparison only
+            return [T("লুপ", "word"), NL] + toks_stmts(st[1], xp) + [T("আবার", "word")] + semi
         return [T("লুপ", "word"), T("{", "op"), NL] + toks_stmts(st[1], xp) + [T("}", "op"), T("আবার", "word")] + semi
     if k == "break":
         return [T("থামাও", "word")] + semi
@@ -216,7 +246,9 @@ def toks_stmt(st, xp=None):
 
 def toks_stmts(sts, xp=None):
     out = []
-    for st in sts:
+    for i, st in enumerate(sts):
+        if STYLE["comments"] and i % 2 == 0 and st[0] != "rawstmt":
+            out += [T("# " + "\u09ae\u09a8\u09cd\u09a4\u09ac\u09cd\u09af " * (i % 3) + "#", "comment"), NL] if i % 4 else [T("##", "comment"), NL]
         out += toks_stmt(st, xp)
     return out
 
